@@ -7,7 +7,7 @@ namespace HidVerif.Core
 open HidVerif HidVerif.PSys HidVerif.Sphinx HidVerif.Gen
 
 /-- the compile context of a program: its own word size -/
-abbrev cxOf (p : Prog) (ck : Bool) (B : Nat) : Cx := ⟨p.w, ck, B⟩
+abbrev cxOf (p : Prog) (ck : Bool) (B : Nat) (dA : Nat) : Cx := ⟨p.w, ck, B, dA⟩
 
 theorem wrapI_lt {M : Nat} (hM : 0 < M) (v : Int) : wrapI M v < M := by
   unfold wrapI
@@ -63,15 +63,15 @@ theorem Fr.keep {p : Prog} {m m' : Mem} {F D a : Nat} (h : Fr p m F D) (k : Keep
   ⟨by rw [k.fp]; exact h.fp, by rw [k.ap]; exact h.ap, by rw [k.size]; exact h.top, h.lt, h.room⟩
 
 section steps
-variable {p : Prog} {pc : Nat} {m : Mem} {F D : Nat}
+variable {p : Prog} {pc : Nat} {m : Mem} {F D : Nat} {dA : Nat}
 
 theorem ev_negImm (ck : Bool) (B s : Nat) (h0 : 0 < s) (hs : s ≤ 256 ^ p.w) :
-    evalArg p ⟨pc, m⟩ ((cxOf p ck B).negImm s) = some ((256 ^ p.w - s) % p.M) := by
+    evalArg p ⟨pc, m⟩ ((cxOf p ck B dA).negImm s) = some ((256 ^ p.w - s) % p.M) := by
   simp [Cx.negImm, Cx.M, evalArg, wrapI_neg h0 hs]
 
 /-- `lwso [r], [fp], -s` -/
 theorem step_ldSlot (ck : Bool) (B r s : Nat) (hw : 2 ≤ p.w) (fr : Fr p m F D)
-    (hc : p.code[pc]? = some (ldSlot (cxOf p ck B) r s))
+    (hc : p.code[pc]? = some (ldSlot (cxOf p ck B dA) r s))
     (hs0 : p.w ≤ s) (hsD : s ≤ D) (hr : r + p.w ≤ 5 * p.w) :
     Sphinx.step p ⟨pc, m⟩ = .next ⟨pc + 1, m.writeLE r p.w (m.readLE (F - s) p.w)⟩ none := by
   have h64 := mul_w_lt_pow p.w hw
@@ -92,7 +92,7 @@ theorem step_swso {dst off v : Arg} {b o x : Nat} (hc : p.code[pc]? = some (.sto
   simp [Sphinx.step, hc, hd, ho, hv, ha]
 
 theorem step_stSlot (ck : Bool) (B s : Nat) (v : Arg) (x : Nat) (hw : 2 ≤ p.w) (fr : Fr p m F D)
-    (hc : p.code[pc]? = some (stSlot (cxOf p ck B) s v)) (hv : evalArg p ⟨pc, m⟩ v = some x)
+    (hc : p.code[pc]? = some (stSlot (cxOf p ck B dA) s v)) (hv : evalArg p ⟨pc, m⟩ v = some x)
     (hs0 : p.w ≤ s) (hsD : s ≤ D) :
     Sphinx.step p ⟨pc, m⟩ = .next ⟨pc + 1, m.writeLE (F - s) p.w x⟩ none := by
   have h64 := mul_w_lt_pow p.w hw
@@ -107,7 +107,7 @@ theorem step_stSlot (ck : Bool) (B s : Nat) (v : Arg) (x : Nat) (hw : 2 ≤ p.w)
 /-- operand form of an immediate or register accessor evaluates to what it denotes -/
 theorem ev_opd (ck : Bool) (B : Nat) (hw : 2 ≤ p.w) (fr : Fr p m F D) (v : Opd)
     (hv : match v with | .imm _ => True | .reg a => a + p.w ≤ 5 * p.w | .slot _ => False) :
-    evalArg p ⟨pc, m⟩ (v.arg (cxOf p ck B)) = some (valOf p.w m F v) := by
+    evalArg p ⟨pc, m⟩ (v.arg (cxOf p ck B dA)) = some (valOf p.w m F v) := by
   have h64 := mul_w_lt_pow p.w hw
   have hM := pow_ge2 p.w hw
   cases v with
